@@ -2,7 +2,8 @@
    [component_full] is the schema regenerated from the running code (Valid/Generated.v). *)
 From Coq Require Import String Ascii List Bool ZArith NArith Relations.
 Import ListNotations.
-Require Import V.Lib.PyStr V.Valid.Model V.Valid.Proofs V.Valid.Kahn V.Valid.Replicate V.Valid.Generated V.Valid.GenProofs.
+Require Import V.Lib.PyStr V.Valid.Model V.Valid.Proofs V.Valid.Kahn V.Valid.Replicate V.Valid.Generated V.Valid.GenProofs
+  V.Valid.Scalars.
 Open Scope string_scope.
 
 (* accepted => identifiers unique, every reference names a component, no dependency cycle (no path from a
@@ -12,9 +13,17 @@ Theorem C11_sound : forall w, accept component_full w = true ->
   (forall c r, In c (w_comps w) -> In r (c_refs c) -> exists c', In c' (w_comps w) /\ c_id c' = r) /\
   (forall u, ~ clos_trans cid (wedge w) u u) /\
   (forall c, In c (w_comps w) -> vars_resolvable w c) /\
-  (forall c, In c (w_comps w) -> hard_errs component_full (c_doc c) "" = []).
+  (forall c, In c (w_comps w) -> doc_hard_errs component_full (c_doc c) = []).
 Proof. exact (accept_sound component_full). Qed.
 Print Assumptions C11_sound.
+
+(* ("no schema error" is judged on the document as convert_component_types converts it: [doc_hard_errs]; for a
+   document that the conversion leaves as it is, this is the schema applied to the document as written) *)
+Theorem C11_sound_typed : forall w, accept component_full w = true ->
+  forall c, In c (w_comps w) -> convert (Some expected_types) (c_doc c) = Some (c_doc c) ->
+  hard_errs component_full (c_doc c) "" = [].
+Proof. exact (sound_typed component_full). Qed.
+Print Assumptions C11_sound_typed.
 
 (* the topological-order check is sound for every graph: no path from a node to itself *)
 Theorem C11_acyclic_check_sound : forall g : list (cid * list cid),
@@ -126,6 +135,123 @@ Theorem C11_schema_wrong_type_any : forall s v p s' l lbl,
 Proof. exact schema_wrong_type. Qed.
 Print Assumptions C11_schema_wrong_type_any.
 
+(* ------------------------------------------------------------------ scalar-for-scalar WrongType faults.
+   The conversion table modelled in Model.v is the expected_types table read from the source of the running code *)
+Theorem C11_conversion_table_current : expected_types_code = expected_types.
+Proof. exact expected_types_current. Qed.
+Print Assumptions C11_conversion_table_current.
+
+(* the options converted with int() / float() / to_bool, str_to_bool (over the regenerated option list) *)
+Theorem C11_scalar_option_classes :
+  map (map pk_str) int_options
+  = [["workflowAttributes"; "replicate"]; ["workflowAttributes"; "repeatInterval"];
+     ["workflowAttributes"; "repeatRetries"]; ["workflowAttributes"; "maxRestarts"];
+     ["resourceManager"; "kubernetes"; "gracePeriod"]; ["resourceRequest"; "numberProcesses"];
+     ["resourceRequest"; "numberThreads"]; ["resourceRequest"; "ranksPerNode"];
+     ["resourceRequest"; "threadsPerCore"]; ["resourceRequest"; "gpus"]] /\
+  map (map pk_str) float_options
+  = [["workflowAttributes"; "optimizer"; "exploitChance"]; ["workflowAttributes"; "optimizer"; "exploitTarget"];
+     ["workflowAttributes"; "optimizer"; "exploitTargetLow"]; ["workflowAttributes"; "optimizer"; "exploitTargetHigh"];
+     ["resourceManager"; "config"; "walltime"]; ["resourceManager"; "lsf"; "statusRequestInterval"];
+     ["resourceManager"; "kubernetes"; "cpuUnitsPerCore"]] /\
+  map (map pk_str) bool_options
+  = [["workflowAttributes"; "aggregate"]; ["workflowAttributes"; "isMigratable"]; ["workflowAttributes"; "isMigrated"];
+     ["workflowAttributes"; "isRepeat"]; ["workflowAttributes"; "memoization"; "disable"; "strong"];
+     ["workflowAttributes"; "memoization"; "disable"; "fuzzy"]; ["workflowAttributes"; "optimizer"; "disable"];
+     ["command"; "resolvePath"]].
+Proof. exact (conj int_options_exact (conj float_options_exact bool_options_exact)). Qed.
+Print Assumptions C11_scalar_option_classes.
+
+(* a float, WHATEVER its value (2.5, 0.5, but also 600.0), is rejected at every option of the regenerated schema but
+   these nine: no float is ever truncated to an integer *)
+Theorem C11_scalar_float_options : forall r,
+  map (map pk_str) (float_admitting r)    (* = the options p with wrong_rejected component_full p (VFlt r) = false *)
+  = [["workflowAttributes"; "repeatInterval"];
+     ["workflowAttributes"; "optimizer"; "exploitChance"]; ["workflowAttributes"; "optimizer"; "exploitTarget"];
+     ["workflowAttributes"; "optimizer"; "exploitTargetLow"]; ["workflowAttributes"; "optimizer"; "exploitTargetHigh"];
+     ["resourceManager"; "config"; "walltime"]; ["resourceManager"; "lsf"; "statusRequestInterval"];
+     ["resourceManager"; "kubernetes"; "cpuUnitsPerCore"]; ["resourceRequest"; "memory"]].
+Proof. exact float_admitting_exact. Qed.
+Print Assumptions C11_scalar_float_options.
+
+Theorem C11_scalar_float_rejected : forall r p,
+  (In p int_options -> p <> p_repeat_interval -> wrong_rejected component_full p (VFlt r) = true) /\
+  (In p bool_options -> wrong_rejected component_full p (VFlt r) = true) /\
+  (In p str_options -> wrong_rejected component_full p (VFlt r) = true).
+Proof.
+  intros r p. exact (conj (float_for_int_rejected r p) (conj (float_for_bool_rejected r p) (float_for_str_rejected r p))).
+Qed.
+Print Assumptions C11_scalar_float_rejected.
+
+(* a string that int() / float() / str_to_bool does not parse (py_int: the plain spellings [+-]?[0-9]+, py_float:
+   digits with at most one point, str_to_bool: true/false/yes/no in any case) makes the conversion raise: rejected
+   under ANY schema *)
+Theorem C11_scalar_string_rejected : forall cs s p,
+  (In p int_options -> py_int s = None -> wrong_rejected cs p (VStr s) = true) /\
+  (In p float_options -> py_float s = false -> wrong_rejected cs p (VStr s) = true) /\
+  (In p bool_options -> str_to_bool s = None -> wrong_rejected cs p (VStr s) = true).
+Proof.
+  intros cs s p. exact (conj (string_for_int_rejected cs s p) (conj (string_for_float_rejected cs s p)
+                                                                    (string_for_bool_rejected cs s p))).
+Qed.
+Print Assumptions C11_scalar_string_rejected.
+
+(* a dictionary for a scalar: a non-empty one makes the conversion raise wherever the table names a converter other
+   than `dict`; the empty one is left alone and then reported by the schema of every option but podSpec; an int for
+   command.resolvePath (str_to_bool) raises *)
+Theorem C11_scalar_dict_rejected :
+  (forall cs k x m p c, tree_at p (Some expected_types) = Some (CLeaf c) -> c <> CDictT ->
+                        wrong_rejected cs p (VDict ((k, x) :: m)) = true) /\
+  (forall p, In p option_leaves -> p <> [KS "resourceManager"; KS "kubernetes"; KS "podSpec"] ->
+             wrong_rejected component_full p (VDict []) = true) /\
+  (forall cs z, wrong_rejected cs p_resolve_path (VInt z) = true).
+Proof. exact (conj dict_for_scalar_rejected (conj empty_dict_rejected int_for_str_to_bool_rejected)). Qed.
+Print Assumptions C11_scalar_dict_rejected.
+
+(* THE EXCEPTION LIST: what convert_component_types coerces instead (for these values the option is not wrongly
+   typed for the loader; the schema judges the converted value).  None, a float and a list are never converted. *)
+Theorem C11_scalar_coercions : forall p,
+  (In p int_options ->
+     (forall s z, py_int s = Some z -> conv_at p (VStr s) = Some (VInt z)) /\
+     (forall b : bool, conv_at p (VBool b) = Some (VInt (if b then 1 else 0))) /\
+     (forall z, conv_at p (VInt z) = Some (VInt z))) /\
+  (In p float_options ->
+     (forall s, py_float s = true -> conv_at p (VStr s) = Some (VFlt s)) /\
+     (forall z, conv_at p (VInt z) = Some (VFlt (zdec z ++ ".0"))) /\
+     (forall b : bool, conv_at p (VBool b) = Some (VFlt (if b then "1.0" else "0.0")))) /\
+  (In p bool_options ->
+     (forall s b, str_to_bool s = Some b -> conv_at p (VStr s) = Some (VBool b)) /\
+     (forall b, conv_at p (VBool b) = Some (VBool b)) /\
+     (p <> p_resolve_path -> forall z, conv_at p (VInt z) = Some (VBool (negb (Z.eqb z 0))))) /\
+  (In p str_options ->
+     (forall z, conv_at p (VInt z) = Some (VStr (zdec z))) /\
+     (forall b : bool, conv_at p (VBool b) = Some (VStr (if b then "True" else "False"))) /\
+     (forall s, conv_at p (VStr s) = Some (VStr s))).
+Proof. intros p. exact (conj (coerced_int p) (conj (coerced_float p) (conj (coerced_bool p) (coerced_str p)))). Qed.
+Print Assumptions C11_scalar_coercions.
+
+Theorem C11_never_converted : forall t,
+  convert t VNone = Some VNone /\ (forall r, convert t (VFlt r) = Some (VFlt r)) /\
+  (forall l, convert t (VList l) = Some (VList l)).
+Proof. exact never_converted. Qed.
+Print Assumptions C11_never_converted.
+
+(* mutant level (instances of C11_complete): in EVERY accepted workflow, at EVERY component, a float given to an
+   option converted with int() (the repeat interval excepted), or a string that int() does not parse, is rejected *)
+Theorem C11_float_for_int_option_rejected : forall w i c p k r m,
+  accept component_full w = true -> nth_error (w_comps w) i = Some c -> pget p (c_doc c) = Some (VDict m) ->
+  In (p ++ [k])%list int_options -> (p ++ [k])%list <> p_repeat_interval ->
+  accept component_full (mutate (WrongType i p k (VFlt r)) w) = false.
+Proof. exact float_for_int_option_rejected. Qed.
+Print Assumptions C11_float_for_int_option_rejected.
+
+Theorem C11_string_for_int_option_rejected : forall w i c p k s m,
+  accept component_full w = true -> nth_error (w_comps w) i = Some c -> pget p (c_doc c) = Some (VDict m) ->
+  In (p ++ [k])%list int_options -> py_int s = None ->
+  accept component_full (mutate (WrongType i p k (VStr s)) w) = false.
+Proof. exact string_for_int_option_rejected. Qed.
+Print Assumptions C11_string_for_int_option_rejected.
+
 (* non-vacuity: a three-component, two-stage workflow with variables is accepted by the regenerated schema and each
    of the eight faults (here: one position each; three for CyclicVars: among the globals, a global through a
    component variable, a component variable on itself) makes it rejected; the CyclicVars instances are applicable *)
@@ -143,9 +269,18 @@ Example C11_nonvacuous :
   applicable component_full (CyclicVars None "g0" "lv") ex_wf /\
   applicable component_full (CyclicVars (Some 0) "lv" "lv") ex_wf /\
   dicts_ok ex_wf /\
-  length (expand_graph ex_cnt ex_repl_graph) = 5.
+  length (expand_graph ex_cnt ex_repl_graph) = 5 /\
+  (* scalar faults at resourceRequest.numberProcesses of component 1: a float (also 600.0), a non-numeric string, a
+     dictionary are rejected; '3', True and 7 are coerced and the workflow still loads; the option is an int option *)
+  map (fun x => accept component_full (mutate (WrongType 1 [KS "resourceRequest"] (KS "numberProcesses") x) ex_wf))
+      [VFlt "2.5"; VFlt "600.0"; VStr "abc"; VDict [(KS "x", VInt 1)]; VDict []; VStr "3"; VBool true; VInt 7]
+  = [false; false; false; false; false; true; true; true] /\
+  In ex_p_nproc int_options /\ ex_p_nproc <> p_repeat_interval /\
+  wrong_rejected component_full ex_p_nproc (VFlt "2.5") = true /\ py_int "abc" = None.
 Proof.
   split; [vm_compute; reflexivity|]. split; [vm_compute; reflexivity|]. split; [vm_compute; reflexivity|].
   split; [vm_compute; reflexivity|].
-  destruct ex_cyclic_applicable as [H1 [H2 [H3 H4]]]. repeat (split; [assumption|]). vm_compute. reflexivity.
+  destruct ex_cyclic_applicable as [H1 [H2 [H3 H4]]]. repeat (split; [assumption|]).
+  split; [vm_compute; reflexivity|]. split; [vm_compute; reflexivity|]. split; [exact ex_nproc_int|].
+  split; [discriminate|]. split; vm_compute; reflexivity.
 Qed.
